@@ -9,10 +9,8 @@ package main
 
 import (
 	"encoding/json"
-	"fmt"
 	"hash/fnv"
 	"reflect"
-	"sort"
 	"strconv"
 	"strings"
 
@@ -275,43 +273,7 @@ func (e *enc) disc(d *model.NodeManagementDetailedDiscoveryDataType) {
 			e.b(sf.Function != nil)
 			e.b(sf.PossibleOperations != nil)
 		}
-		e.n(featureSig(fd))
 	}
-}
-
-// featureSig identifies what the FeatureRemote object is built from (NewFeatureRemote, SetDescription,
-// SetOperations): type, role, description, and the operations map (function -> read, read partial, write,
-// write partial; a later entry for the same function wins). AddSubscription compares feature objects
-// with reflect.DeepEqual, so two announcements of a feature yield equal objects iff this agrees.
-func featureSig(fd *model.NetworkManagementFeatureDescriptionDataType) int64 {
-	h := fnv.New32a()
-	w := func(s string) { h.Write([]byte(s)); h.Write([]byte{0}) }
-	if fd.FeatureType != nil {
-		w("t:" + string(*fd.FeatureType))
-	}
-	if fd.Role != nil {
-		w("r:" + string(*fd.Role))
-	}
-	if fd.Description != nil {
-		w("d:" + string(*fd.Description))
-	}
-	ops := map[string]string{}
-	for _, sf := range fd.SupportedFunction {
-		if sf.Function == nil || sf.PossibleOperations == nil {
-			continue
-		}
-		po := sf.PossibleOperations
-		ops[string(*sf.Function)] = fmt.Sprint(po.Read != nil, po.Read != nil && po.Read.Partial != nil, po.Write != nil, po.Write != nil && po.Write.Partial != nil)
-	}
-	keys := make([]string, 0, len(ops))
-	for k := range ops {
-		keys = append(keys, k)
-	}
-	sort.Strings(keys)
-	for _, k := range keys {
-		w("o:" + k + "=" + ops[k])
-	}
-	return 1 + int64(h.Sum32()%1000000000)
 }
 
 var droppedUnrepresentable int
